@@ -53,6 +53,16 @@ def order_of(eng, f: FuncInfo, it: ast.AST, defs: Defs, depth: int = 0) -> Tuple
             return "other:reversed", base
     if isinstance(it, ast.Name) and depth < 3:
         vals = [v for k, v, st in defs.values(it.id) if k == "assign" and v is not None]
+        if len(vals) > 1:
+            # memo idiom: `x = self.D.get(k)` / `self.D[k]`, computed and stored back (`self.D[k] = x`) when missing: the cached
+            # values are exactly the computed ones, so the order is the computed binding's
+            def cache_read(v):
+                c = v.func.value if isinstance(v, ast.Call) and isinstance(v.func, ast.Attribute) and v.func.attr == "get" and len(v.args) in (1, 2) else (v.value if isinstance(v, ast.Subscript) else None)
+                if c is None:
+                    return False
+                stores = [n for n in walk_local(f.node) if isinstance(n, ast.Assign) and len(n.targets) == 1 and isinstance(n.targets[0], ast.Subscript) and norm(n.targets[0].value) == norm(c)]
+                return bool(stores) and all(isinstance(n.value, ast.Name) and n.value.id == it.id for n in stores)
+            vals = [v for v in vals if not cache_read(v)] or vals
         if len(vals) == 1:
             o, base = order_of(eng, f, vals[0], defs, depth + 1)
             sorts = inplace_sorts(f, it.id)
@@ -161,7 +171,7 @@ def sinks(eng) -> Set[str]:
             if cs.how == "ctor":
                 for c in cs.callees:
                     cq = c.rsplit(".", 1)[0]
-                    if cq in prog.classes and prog.classes[cq].module.name == "fcp.serde":
+                    if cq in prog.classes and prog.classes[cq].module.name.startswith("fcp.") and not prog.is_subclass(cq, "fcp.specs.type.Type"):
                         out |= {m.qual for m in prog.classes[cq].methods.values()}
     if not out:
         raise AnalysisError("anchor vanished: no cursor class instantiated in fcp.serde.encode/decode")
@@ -222,7 +232,7 @@ def run(eng, rep) -> None:
                     defs = Defs(f.node)
                 order, base = order_of(eng, f, it, defs)
                 bt = ft.of(base)
-                hv = helper_order(eng, f, it) if not is_field_list(bt) and not is_field_list(ft.of(it)) else None
+                hv = helper_order(eng, f, it) if (not is_field_list(bt) and not is_field_list(ft.of(it))) or (isinstance(it, ast.Call) and base is it) else None
                 if hv is not None:
                     horder, hq = hv
                     g = prog.functions[hq]
